@@ -143,7 +143,7 @@ SharedUnchanged == InFlight = 0 => \A l \in SharedLocs : mem[l] = InitVal(l)
 ASSUME NoSharedWriteDeclared == \A op \in OpNames : SharedWrites(op, "ok") = {}
 
 TypeOK == /\ \A g \in G : Len(prog[g]) <= K /\ Len(results[g]) <= Len(prog[g])
-          /\ \A g \in G : pc[g] \in 0..20
+          /\ \A g \in G : pc[g] \in 0..30
           /\ InFlight <= MaxPar
 
 Done == \A g \in G : ~Running(g) /\ Len(prog[g]) = K
